@@ -84,7 +84,7 @@ def run(tier, seed, replay=None):
                 "boxes deep, given as dict or callable; ~8% ill-typed box maps; non-trivial = "
                 "diagram of >= 2 boxes and at least one object image of length != 1")
     rep.lean = lean_obligations(PROP, thorough=(tier == "thorough"))
-    n_cases = 150 if tier == "quick" else 1500
+    n_cases = 150 if tier == "quick" else 6000
     rng = random.Random(seed)
     drv = Driver()
     fams = {"monoidal": Family("monoidal"), "rigid": Family("rigid")}
